@@ -110,7 +110,7 @@ Section val_ind'.
   Hypothesis Hbool : forall b, P (VBool b).
   Hypothesis Hint : forall z, P (VInt z).
   Hypothesis Hstr : forall s, P (VStr s).
-  Hypothesis Hlist : forall l, Forall P l -> P (VList l).
+  Hypothesis Hlist : forall t l, Forall P l -> P (VList t l).
   Hypothesis Hdict : forall kvs, Forall (fun kv => P (snd kv)) kvs -> P (VDict kvs).
   Hypothesis Hundef : P VUndef.
   Hypothesis Hnull : P VNull.
@@ -137,7 +137,7 @@ Section val_ind'.
     | VBool b => Hbool b
     | VInt z => Hint z
     | VStr s => Hstr s
-    | VList l => Hlist l (lst l)
+    | VList t l => Hlist t l (lst l)
     | VDict kvs => Hdict kvs (kvl kvs)
     | VUndef => Hundef
     | VNull => Hnull
@@ -268,9 +268,9 @@ Proof.
 Qed.
 
 (** Unfolding lemmas: the nested fixpoints of the model are [mapM]. *)
-Lemma py_repr_list l :
-  py_repr (VList l) =
-  (do rs <- mapM py_repr l;; Ok (lit "[" ++ join_str (lit ", ") rs ++ lit "]")).
+Lemma py_repr_list t l :
+  py_repr (VList t l) =
+  (do rs <- mapM py_repr l;; Ok (repr_brackets t rs)).
 Proof.
   simpl. match goal with |- bind ?a _ = _ => assert (a = mapM py_repr l) as -> end; [|reflexivity].
   induction l as [|x l IH]; simpl; [reflexivity|]. rewrite IH. reflexivity.
@@ -291,8 +291,8 @@ Proof.
   destruct (py_repr v); simpl; try reflexivity. rewrite IH. reflexivity.
 Qed.
 
-Lemma to_liquid_string_list l :
-  to_liquid_string (VList l) = rmap concat_str (mapM to_liquid_string l).
+Lemma to_liquid_string_list t l :
+  to_liquid_string (VList t l) = rmap concat_str (mapM to_liquid_string l).
 Proof.
   simpl. f_equal. induction l as [|x l IH]; simpl; [reflexivity|]. rewrite IH. reflexivity.
 Qed.
@@ -331,8 +331,12 @@ Fixpoint list_eq (x y : list val) : res bool :=
   | _, _ => Ok false
   end.
 
-Lemma py_eq_list x b :
-  py_eq (VList x) b = match b with VList y => list_eq x y | _ => Ok false end.
+Lemma py_eq_list t x b :
+  py_eq (VList t x) b =
+  match b with
+  | VList t' y => if negb (Bool.eqb t t') then Ok false else list_eq x y
+  | _ => Ok false
+  end.
 Proof. destruct b; reflexivity. Qed.
 
 Lemma py_eq_dict x b :
@@ -389,7 +393,12 @@ Section Erase.
   Lemma E_is_sized v : is_sized (E v) = is_sized v.
   Proof. unfold is_sized. rewrite E_is_mapping, E_is_sequence. reflexivity. Qed.
   Lemma E_is_loopdrop v : is_loopdrop (E v) = is_loopdrop v. Proof. destruct v; reflexivity. Qed.
-  Lemma E_hashable v : hashable (E v) = hashable v. Proof. destruct v; reflexivity. Qed.
+  Lemma E_hashable v : hashable (E v) = hashable v.
+  Proof.
+    induction v using val_ind'; try reflexivity.
+    destruct t; [|reflexivity]. cbn [erase_with hashable].
+    induction H as [|x l Hx _ IH]; [reflexivity|]. cbn [List.map forallb]. rewrite Hx, IH. reflexivity.
+  Qed.
   Lemma E_has_getitem v : has_getitem (E v) = has_getitem v. Proof. destruct v; reflexivity. Qed.
   Lemma E_as_index v : as_index (E v) = as_index v. Proof. destruct v; reflexivity. Qed.
   Lemma E_is_undef v : is_undef (E v) = is_undef v. Proof. destruct v; reflexivity. Qed.
@@ -446,7 +455,7 @@ Section Erase.
   Lemma E_py_repr v : py_repr (E v) = py_repr v.
   Proof.
     induction v using val_ind'; try reflexivity.
-    - change (E (VList l)) with (VList (List.map E l)). rewrite !py_repr_list.
+    - change (E (VList t l)) with (VList t (List.map E l)). rewrite !py_repr_list.
       rewrite (mapM_Forall0 E py_repr py_repr l H). reflexivity.
     - change (E (VDict kvs)) with (VDict (Ens kvs)). rewrite !py_repr_dict.
       unfold map_snd.
@@ -459,7 +468,7 @@ Section Erase.
   Lemma E_to_liquid_string v : to_liquid_string (E v) = to_liquid_string v.
   Proof.
     induction v using val_ind'; try reflexivity.
-    - change (E (VList l)) with (VList (List.map E l)). rewrite !to_liquid_string_list.
+    - change (E (VList t l)) with (VList t (List.map E l)). rewrite !to_liquid_string_list.
       rewrite (mapM_Forall0 E to_liquid_string to_liquid_string l H). reflexivity.
     - apply (E_py_repr (VDict kvs)).
     - rewrite E_obj, !to_liquid_string_obj.
@@ -470,7 +479,7 @@ Section Erase.
   Lemma E_py_str v : py_str (E v) = py_str v.
   Proof.
     destruct v; try reflexivity.
-    - apply (E_py_repr (VList l)).
+    - apply (E_py_repr (VList tup l)).
     - apply (E_py_repr (VDict kvs)).
   Qed.
 
@@ -502,8 +511,9 @@ Section Erase.
   Lemma E_py_eq a : forall b, py_eq (E a) (E b) = py_eq a b.
   Proof.
     induction a using val_ind'; intro b0; try (destruct b0; reflexivity).
-    - change (E (VList l)) with (VList (List.map E l)). rewrite !py_eq_list.
-      destruct b0; try reflexivity. apply E_list_eq; exact H.
+    - change (E (VList t l)) with (VList t (List.map E l)). rewrite !py_eq_list.
+      destruct b0; try reflexivity. cbn [erase_with].
+      destruct (negb (Bool.eqb t tup)); [reflexivity|]. apply E_list_eq; exact H.
     - change (E (VDict kvs)) with (VDict (Ens kvs)). rewrite !py_eq_dict.
       rewrite E_is_loopdrop, E_items_of.
       destruct b0; try reflexivity.
@@ -560,8 +570,9 @@ Section Erase.
       rewrite E_hashable. destruct (hashable b); [|reflexivity].
       destruct b; try reflexivity. cbn [erase_with]. rewrite assoc_map_snd.
       destruct (assoc s kvs); reflexivity.
-    - rewrite E_obj. cbn [liq_contains]. destruct (o_kind h); try reflexivity.
-      + rewrite E_lookup_key. destruct (lookup_key b items); reflexivity.
+    - rewrite E_obj. cbn [liq_contains]. destruct (o_kind h) eqn:Ek; try reflexivity.
+      + rewrite <- E_obj, E_py_getitem.
+        destruct (py_getitem false (VObj h items aitems seq attrs) b) as [| |[]|]; reflexivity.
       + apply E_py_list_contains.
   Qed.
 
@@ -696,11 +707,10 @@ Section Erase.
     cbn [erase_with]. destruct (is_infix s0 s); reflexivity.
   Qed.
 
-  Lemma E_not_false_none x : not_false_none (E x) = not_false_none x.
+  Lemma E_f_property o k : f_property (E o) (E k) = rmap E (f_property o k).
   Proof.
-    unfold not_false_none.
-    rewrite (E_py_eq x (VBool false) : py_eq (E x) (VBool false) = _).
-    rewrite (E_py_eq x VNil : py_eq (E x) VNil = _). reflexivity.
+    unfold f_property. rewrite E_py_getitem.
+    destruct (py_getitem false o k) as [| |[]|]; reflexivity.
   Qed.
 
   Lemma E_push c n : push (Ectx c) (Ens n) = Ectx (push c n).
@@ -783,9 +793,9 @@ Section Erase.
     set (l := p :: q :: t). rewrite !E_all_class.
     destruct (all_class KCInt l || all_class KCStr l)%bool.
     - rewrite E_sort_pairs. cbn [rmap]. rewrite !map_map. reflexivity.
-    - assert (Hx : existsb (fun p => match fst p with VList _ => true | _ => false end)
+    - assert (Hx : existsb (fun p => match fst p with VList _ _ => true | _ => false end)
                             (List.map Epair l)
-                   = existsb (fun p => match fst p with VList _ => true | _ => false end) l).
+                   = existsb (fun p => match fst p with VList _ _ => true | _ => false end) l).
       { clear. induction l as [|[k v] l IH]; [reflexivity|].
         cbn [List.map existsb Epair fst]. rewrite IH. destruct k; reflexivity. }
       rewrite Hx. destruct (existsb _ l); reflexivity.
@@ -875,7 +885,7 @@ Section Erase.
       try (destruct (py_eq VNil _) as [[|]| | |]; try reflexivity;
            destruct (py_eq (VBool false) _) as [[|]| | |]; try reflexivity).
     all: cbn [orb bind rmap].
-    all: try (destruct (unhook _) as [| | |[|]|[|]|[|]| | | | |]; reflexivity).
+    all: try (destruct (unhook _) as [| | |[|]|[|] [|]|[|]| | | | |]; reflexivity).
   Qed.
 
   (** *** The hook sites *)
@@ -921,8 +931,8 @@ Section Erase.
 
   Lemma H_filter (p p' : val -> res bool) left :
     (forall x, p' (E x) = p x) ->
-    rmap VList (filterM p' (sequence_arg (E left)))
-    = rmap E (rmap VList (filterM p (sequence_arg left))).
+    rmap (VList false) (filterM p' (sequence_arg (E left)))
+    = rmap E (rmap (VList false) (filterM p (sequence_arg left))).
   Proof.
     intro H. rewrite E_sequence_arg, (filterM_comm E p p') by exact H.
     rewrite !rmap_rmap. reflexivity.
@@ -930,8 +940,8 @@ Section Erase.
 
   Lemma H_map (f f' : val -> res val) left :
     (forall x, f' (E x) = rmap E (f x)) ->
-    rmap VList (mapM f' (sequence_arg (E left)))
-    = rmap E (rmap VList (mapM f (sequence_arg left))).
+    rmap (VList false) (mapM f' (sequence_arg (E left)))
+    = rmap E (rmap (VList false) (mapM f (sequence_arg left))).
   Proof.
     intro H. rewrite E_sequence_arg, (mapM_comm E E f f') by exact H.
     rewrite !rmap_rmap. reflexivity.
@@ -944,83 +954,61 @@ Section Erase.
 
   (** the item predicates of where / reject / find / has *)
   Lemma P_truthy_key k x :
-    (do y <- f_getitem (E x) (E k) VNil;; not_false_none y)
-    = (do y <- f_getitem x k VNil;; not_false_none y).
+    (do y <- f_getitem (E x) (E k) VNil;; Ok (is_truthy y))
+    = (do y <- f_getitem x k VNil;; Ok (is_truthy y)).
   Proof.
     rewrite E_f_getitem_nil. destruct (f_getitem x k VNil); cbn [rmap bind]; try reflexivity.
-    apply E_not_false_none.
+    rewrite E_is_truthy. reflexivity.
   Qed.
 
   Lemma P_falsy_key k x :
-    (do y <- f_getitem (E x) (E k) VNil;; rmap negb (not_false_none y))
-    = (do y <- f_getitem x k VNil;; rmap negb (not_false_none y)).
+    (do y <- f_getitem (E x) (E k) VNil;; Ok (negb (is_truthy y)))
+    = (do y <- f_getitem x k VNil;; Ok (negb (is_truthy y))).
   Proof.
     rewrite E_f_getitem_nil. destruct (f_getitem x k VNil); cbn [rmap bind]; try reflexivity.
-    rewrite E_not_false_none. reflexivity.
+    rewrite E_is_truthy. reflexivity.
   Qed.
 
   Lemma P_eq_key k v x :
-    (do y <- f_getitem (E x) (E k) VNil;; py_eq y (E v))
-    = (do y <- f_getitem x k VNil;; py_eq y v).
+    (do y <- f_getitem (E x) (E k) VNil;; liq_eq y (E v))
+    = (do y <- f_getitem x k VNil;; liq_eq y v).
   Proof.
     rewrite E_f_getitem_nil. destruct (f_getitem x k VNil); cbn [rmap bind]; try reflexivity.
-    apply E_py_eq.
+    apply E_liq_eq.
   Qed.
 
   Lemma P_ne_key k v x :
-    (do y <- f_getitem (E x) (E k) VNil;; rmap negb (py_eq y (E v)))
-    = (do y <- f_getitem x k VNil;; rmap negb (py_eq y v)).
+    (do y <- f_getitem (E x) (E k) VNil;; rmap negb (liq_eq y (E v)))
+    = (do y <- f_getitem x k VNil;; rmap negb (liq_eq y v)).
   Proof.
     rewrite E_f_getitem_nil. destruct (f_getitem x k VNil); cbn [rmap bind]; try reflexivity.
-    rewrite E_py_eq. reflexivity.
+    rewrite E_liq_eq. reflexivity.
   Qed.
 
   Lemma P_find_truthy k x :
-    (do y <- find_getitem (E x) (E k);; not_false_none y)
-    = (do y <- find_getitem x k;; not_false_none y).
+    (do y <- find_getitem (E x) (E k);; Ok (is_truthy y))
+    = (do y <- find_getitem x k;; Ok (is_truthy y)).
   Proof.
     rewrite E_find_getitem. destruct (find_getitem x k); cbn [rmap bind]; try reflexivity.
-    apply E_not_false_none.
+    rewrite E_is_truthy. reflexivity.
   Qed.
 
   Lemma P_find_val k v x :
     (do y <- find_getitem (E x) (E k);;
-     if (is_nil (E v) || is_undef (E v))%bool then not_false_none y else py_eq y (E v))
+     if (is_nil (E v) || is_undef (E v))%bool then Ok (is_truthy y) else liq_eq y (E v))
     = (do y <- find_getitem x k;;
-       if (is_nil v || is_undef v)%bool then not_false_none y else py_eq y v).
+       if (is_nil v || is_undef v)%bool then Ok (is_truthy y) else liq_eq y v).
   Proof.
     rewrite E_find_getitem, E_is_nil, E_is_undef.
     destruct (find_getitem x k); cbn [rmap bind]; try reflexivity.
-    destruct (is_nil v || is_undef v)%bool; [apply E_not_false_none|apply E_py_eq].
-  Qed.
-
-  Lemma P_has_truthy k x :
-    (do y <- find_getitem (E x) (E k);; do b <- not_false_none y;; Ok (b && py_truthy (E x))%bool)
-    = (do y <- find_getitem x k;; do b <- not_false_none y;; Ok (b && py_truthy x)%bool).
-  Proof.
-    rewrite E_find_getitem, E_py_truthy.
-    destruct (find_getitem x k); cbn [rmap bind]; try reflexivity.
-    rewrite E_not_false_none. reflexivity.
-  Qed.
-
-  Lemma P_has_val k v x :
-    (do y <- find_getitem (E x) (E k);;
-     do b <- (if (is_nil (E v) || is_undef (E v))%bool then not_false_none y else py_eq y (E v));;
-     Ok (b && py_truthy (E x))%bool)
-    = (do y <- find_getitem x k;;
-       do b <- (if (is_nil v || is_undef v)%bool then not_false_none y else py_eq y v);;
-       Ok (b && py_truthy x)%bool).
-  Proof.
-    rewrite E_find_getitem, E_is_nil, E_is_undef, E_py_truthy.
-    destruct (find_getitem x k); cbn [rmap bind]; try reflexivity.
-    destruct (is_nil v || is_undef v)%bool; [rewrite E_not_false_none|rewrite E_py_eq]; reflexivity.
+    destruct (is_nil v || is_undef v)%bool; [rewrite E_is_truthy; reflexivity|apply E_liq_eq].
   Qed.
 
   Lemma P_compact_key k x :
-    (do y <- py_getitem false (E x) (E k);; Ok (negb (is_nil y)))
-    = (do y <- py_getitem false x k;; Ok (negb (is_nil y))).
+    (do y <- f_property (E x) (E k);; Ok (negb (is_nil y)))
+    = (do y <- f_property x k;; Ok (negb (is_nil y))).
   Proof.
-    rewrite E_py_getitem. destruct (py_getitem false x k); cbn [rmap bind]; try reflexivity.
+    rewrite E_f_property. destruct (f_property x k); cbn [rmap bind]; try reflexivity.
     rewrite E_is_nil. reflexivity.
   Qed.
 
@@ -1095,7 +1083,7 @@ Section Erase.
     - (* FMap *)
       destruct args as [|[e|kw e|ps body] [|x2 t]]; try reflexivity.
       + ev e. rewrite E_py_str. destruct (py_str k); cbn [rmap bind]; try reflexivity.
-        apply H_map. intro x. apply E_f_getitem_str with (d := VNull).
+        apply H_map. intro x. apply E_f_getitem_str with (d := VNil).
       + lam. cbn [erase_with]. rewrite !map_map. do 2 f_equal. apply map_ext. intro r.
         rewrite E_is_undef. destruct (is_undef r); reflexivity.
     - (* FWhere *)
@@ -1192,9 +1180,9 @@ Section Erase.
         destruct (lambda_find c ps body (sequence_arg left) 0) as [[[i x]|]| | |]; reflexivity.
     - (* FHas *)
       destruct args as [|[e|kw e|ps body] [|[e2|kw2 e2|ps2 b2] [|x3 t]]]; try reflexivity.
-      + ev e. rewrite (H_find _ _ left (P_has_truthy k)).
+      + ev e. rewrite (H_find _ _ left (P_find_truthy k)).
         destruct (findM _ (sequence_arg left) 0) as [[[i x]|]| | |]; reflexivity.
-      + ev e. ev e2. rewrite (H_find _ _ left (P_has_val k k0)).
+      + ev e. ev e2. rewrite (H_find _ _ left (P_find_val k k0)).
         destruct (findM _ (sequence_arg left) 0) as [[[i x]|]| | |]; reflexivity.
       + rewrite E_sequence_arg, E_lambda_find.
         destruct (lambda_find c ps body (sequence_arg left) 0) as [[[i x]|]| | |]; reflexivity.
@@ -1576,9 +1564,9 @@ Definition ex_prog : list stmt :=
 
 Example noninterference_nonvacuous :
   let d  := [(lit "o", ex_obj [(lit "secret", VStr (lit "S3CR3T")); (lit "token", VOpaque 1)]);
-             (lit "l", VList [ex_obj [(lit "secret", VStr (lit "S3CR3T"))]; VDict [(lit "n", VInt 5)]])] in
+             (lit "l", VList false [ex_obj [(lit "secret", VStr (lit "S3CR3T"))]; VDict [(lit "n", VInt 5)]])] in
   let d' := [(lit "o", ex_obj [(lit "secret", VStr (lit "other")); (lit "title", VStr (lit "hidden"))]);
-             (lit "l", VList [ex_obj []; VDict [(lit "n", VInt 5)]])] in
+             (lit "l", VList false [ex_obj []; VDict [(lit "n", VInt 5)]])] in
   d <> d' /\ proto_eq d d' /\ hook_free_ns d = true /\ hook_free_ns d' = true
   /\ map_snd erase d = map_snd erase d'
   /\ render false ex_prog d = Ok (lit "T|,|2,512")
